@@ -29,6 +29,10 @@ func vfGenSrvCfg(t *rapid.T) vfSrvCfg {
 	// the payload limit can only be raised; 256 KiB is the largest frame either side accepts, and the option
 	// is documented as safe for larger values too
 	c.MaxTx = rapid.SampledFrom([]uint32{0, 0, 0, 32768, 65536, 262144, 1 << 20}).Draw(t, "maxtx")
+	c.Extra = rapid.IntRange(0, 3).Draw(t, "extraopts") == 0
+	if rapid.Bool().Draw(t, "shuffleopts") {
+		c.OptPerm = rapid.Uint32Range(1, 1<<20).Draw(t, "optperm")
+	}
 	if c.Kind == "rs" {
 		c.HOpts = vfHOpts{OpenFile: rapid.Bool().Draw(t, "openfile"), PosixRename: rapid.Bool().Draw(t, "posixrename"), StatVFS: rapid.Bool().Draw(t, "statvfs"),
 			Lstat: rapid.Bool().Draw(t, "lstat"), RealPath: rapid.IntRange(0, 2).Draw(t, "realpath"), Readlink: rapid.Bool().Draw(t, "readlink"), NameLookup: rapid.Bool().Draw(t, "namelookup")}
